@@ -90,6 +90,12 @@ func plans(prop, tier string) []drv.Plan {
 				add(s.P, s.W, s.N, mode, "normal", "closeearly", 3)
 			}
 		}
+		// two overlapping Close calls: either one returning means everything was delivered or reported
+		for _, s := range []shape{{1, 1, 1}, {1, 2, 2}, {1, 3, 1}} {
+			for _, mode := range []string{"waiter", "poller"} {
+				add(s.P, s.W, s.N, mode, "normal", "closepair", b)
+			}
+		}
 		for _, s := range []shape{{1, 1, 1}, {1, 2, 2}, {2, 1, 1}, {2, 1, 4}} {
 			for _, mode := range []string{"waiter", "poller"} {
 				add(s.P, s.W, s.N, mode, "normal", "fatal", b)
@@ -179,8 +185,7 @@ func main() {
 	}
 	stats, err := drv.ExploreAll(factory, ps, t0.Add(budget))
 	if err != nil {
-		fmt.Println("INFRA:", err)
-		os.Exit(2)
+		drv.InfraExit(*prop, factory, stats, err, 4000)
 	}
 	if os.Getenv("VERIF_VERBOSE") != "" {
 		for _, st := range stats {
